@@ -2,4 +2,4 @@ Require Extraction.
 Require Import ExtrOcamlBasic.
 From Argot Require Import Model.CodeId.
 Extraction "codeid.ml" match1 match_ideal exists_cid classify classify_ideal entry_cands call_cands arg_cands
-  validator_cands fn_bt_cand op_cands op_sink_cands op_ids expand_sinks site_of node_callee identity receiver_str elt pkg_string pkg_path.
+  validator_cands fn_bt_cand op_cands op_sink_cands op_ids expand_sinks site_of node_callee identity receiver_str elt pkg_string pkg_path is_some node_of_interest.
